@@ -270,9 +270,12 @@ def normal_exit_case(ops):
 def gen_ops(rng, maxlen, allow_half=False):
     pairs = [("T", "S"), ("S", "T"), rng.choice(c13.PAIRS[2:])]
     ops = [["col"] + list(rng.choice(pairs[:2]))]
+    if rng.random() < 0.6:
+        # two (or three) sessions in one file: slots 0 and 1 denote different sessions from the start
+        ops.append(["col"] + list(rng.choice([p for p in pairs if list(p) != ops[0][1:]])))
     st = {"desc": rng.choice([9, 2**31 + 4, 2**62 + 4])}
     stored = []
-    n = rng.randint(1, maxlen)
+    n = rng.randint(len(ops), maxlen + len(ops) - 1)
     while len(ops) < n:
         v = rng.random()
         if v < 0.15:
@@ -407,6 +410,13 @@ def correspondence(ctx):
         evals += 1
         if m[len(lines):] != ro:
             dis.append({"input": {"ops": ops, "mode": "process-exit"}, "model": m[len(lines):], "impl": ro})
+    content = {}
+    for r in res_snap:
+        for l in r["dry"]["lines"]:
+            t = l.split(" ")
+            if t[0] == "jrn.persist":
+                cl = c13.content_class(C.unhx(t[5]), 1 if t[4] == "out" else 0)
+                content[cl] = content.get(cl, 0) + 1
     samples = [{"ops": r["ops"], "calls_after_each_op": r["dry"]["cum"],
                 "crash_points": len(r["results"])} for r in res_fork[len(corpus):len(corpus) + 3]]
     return {
@@ -422,6 +432,9 @@ def correspondence(ctx):
         "exhaustive": False,
         "distribution": {"sequences": len(seqs), "sequences_with_real_process_exits": len(res_fork),
                          "corpus": len(corpus), "max_len": maxlen, "points": dist,
+                         "stored_frame_content": dict(sorted(content.items())),
+                         "sequences_with_two_or_more_sessions": sum(
+                             1 for ops in seqs if len({tuple(o[1:3]) for o in ops if o[0] == "col"}) >= 2),
                          "exit_codes": {str(k): v for k, v in exitcodes.items()}},
         "disagreements": dis,
     }
